@@ -873,8 +873,16 @@ func polyToComplexNoCRT(coeffs []uint64, values FloatSlice, scale rlwe.Scale, lo
 		} else {
 			slots := 1 << logSlots
 
-			for i := 1; i < slots; i++ {
-				values[i][1].Sub(values[i][1], values[slots-i][0])
+			// The imaginary parts are set (not subtracted from what the buffer held before).
+			for i := 0; i < slots; i++ {
+				if values[i][1] == nil {
+					values[i][1] = new(big.Float)
+				}
+				if i == 0 {
+					values[i][1].SetInt64(0)
+				} else {
+					values[i][1].Neg(values[slots-i][0])
+				}
 			}
 		}
 
@@ -982,8 +990,16 @@ func polyToComplexCRT(poly ring.Poly, bigintCoeffs []*big.Int, values FloatSlice
 		} else {
 			// [X]/(X^N+1) to [X+X^-1]/(X^N+1)
 			slots := 1 << logSlots
-			for i := 1; i < slots; i++ {
-				values[i][1].Sub(values[i][1], values[slots-i][0])
+			// The imaginary parts are set (not subtracted from what the buffer held before).
+			for i := 0; i < slots; i++ {
+				if values[i][1] == nil {
+					values[i][1] = new(big.Float)
+				}
+				if i == 0 {
+					values[i][1].SetInt64(0)
+				} else {
+					values[i][1].Neg(values[slots-i][0])
+				}
 			}
 		}
 
